@@ -262,6 +262,11 @@ func RunNil(c *core.Ctx) {
 						if (t.Op == token.EQL || t.Op == token.NEQ) && ((isIdentObj(info, t.X, ro) && isNilIdent(info, t.Y)) || (isIdentObj(info, t.Y, ro) && isNilIdent(info, t.X))) {
 							bad, at = "tests the receiver for nil: the store can be skipped silently on the nil message", t
 						}
+					case *ast.CallExpr:
+						// x.IsValid() is that very test (COH.type holds IsValid to `x != nil`)
+						if sel, ok := ast.Unparen(t.Fun).(*ast.SelectorExpr); ok && sel.Sel.Name == "IsValid" && isIdentObj(info, sel.X, ro) {
+							bad, at = "asks the receiver whether it is valid (x.IsValid() is x != nil): the store can be skipped silently on the nil message", t
+						}
 					}
 					return true
 				})
